@@ -268,7 +268,7 @@ static void do_send(uint64_t me, struct gm_state *s, const struct gm_act *ac, do
 			dest = me;
 			break;
 		case 4: /* drip: LP 0 receives an event only now and then, the rest stays local */
-			dest = s->handled % (3 + g->seed % 13) == 0 ? 0 : ((r >> 8) & 1 ? me : (me + 1) % g->n_lps);
+			dest = s->handled % (g->drip_k ? g->drip_k : 3 + g->seed % 13) == 0 ? 0 : ((r >> 8) & 1 || g->n_lps < 2 ? me : 1 + (me % (g->n_lps - 1)));
 			break;
 		default:
 			dest = (r >> 8) % g->n_lps;
